@@ -384,10 +384,16 @@ def garbage_collect(endpoints_dir):
 
         except OSError as err:
             if err.errno == errno.ENOENT:
-                if not os.path.islink(link) or os.path.exists(link):
-                    # Not dangling: released since it was listed, and the
-                    # name may belong to another owner by now.
+                # Not dangling any more? Released since it was listed, the
+                # name may belong to another owner by now.
+                if not os.path.islink(link):
                     continue
+                try:
+                    os.stat(link)
+                    continue
+                except OSError as err2:
+                    if err2.errno != errno.ENOENT:
+                        raise
                 _LOGGER.warning('Reclaimed: %r', spec)
                 try:
                     os.unlink(link)
